@@ -346,6 +346,10 @@ Proof. exact construct_holds_nonvacuous. Qed.
    Guards: no do_not_copy=True classes, no do_not_copy attributes, scalar_table, tgb. *)
 Definition no_dnc_attrs (ct : ctable) : Prop :=
   forall k sp, In k ct -> In sp (c_attrs k) -> a_dnc sp = false.
+(* every attribute is init-enabled (the property restricts itself to those); no class-dict overrides *)
+Definition all_init (ct : ctable) : Prop :=
+  forall k sp, In k ct -> In sp (c_attrs k) -> a_init sp = true.
+Definition no_overrides (ct : ctable) : Prop := forall k, In k ct -> c_overrides k = [].
 
 Theorem C08_del_fresh_final_heap :
   forall ct, no_dnc_classes ct -> scalar_table ct -> tgb ct = true -> no_dnc_attrs ct ->
@@ -426,17 +430,22 @@ Qed.
      deepcopy, argument objects of scalars built by the caller, and in place, on an instance created
      by a constructor call of the history, for ANY attribute (dependants are reset by invalidation):
      `obj.a = <scalar>`, `del obj.a`, `obj.with_<a>(<scalar>, _inplace=True)`,
-     `obj.reset_<a>(_inplace=True)`, `obj.reset(_inplace=True)` —
+     `obj.reset_<a>(_inplace=True)`, `obj.reset(_inplace=True)`,
+     `obj.update_<a>(<scalar>, _inplace=True)`, `obj.transform_<a>(<scalar callback>, _inplace=True)`
+     (these two read the current value through getattr(obj, name, default): by the holds-defaults
+     invariant, carried in PD, it comes from the instance's own dictionary, never from a class-level
+     object) —
    the instances returned by the constructor calls of the history sit at pairwise different cells,
    each is a live cell, and no cell is reachable from two of them (invariant PD, preserved by every
    step: SepMore3.peer_step).  Tables: no do_not_copy=True classes, no do_not_copy attributes,
    scalar_table, tgb.
    Proviso (what keeps this partial): every heap an operation of the history starts from is free of
    dangling references (`run_wf`; decidable: `run_wfb`, lemma run_wfb_ok).  Still missing beyond that:
-   (discharged below for scalar arguments); in-place update_ / transform_ / element helpers and
-   update(_inplace=True) in the alphabet; instances obtained as copies; do_not_copy attributes. *)
+   (discharged below for scalar arguments); in-place element helpers and update / transform
+   (_inplace=True) in the alphabet; instances obtained as copies; do_not_copy attributes. *)
 Theorem C08_peers_disjoint_history_if_no_dangling :
   forall ct, no_dnc_classes ct -> scalar_table ct -> tgb ct = true -> no_dnc_attrs ct ->
+  all_init ct -> no_overrides ct ->
   forall ops s roots,
     ops_ok (length roots) [] ops -> run_wf ct s roots ops ->
     forall i j ci pi kwi fi cj pj kwj fj li lj,
@@ -447,7 +456,7 @@ Theorem C08_peers_disjoint_history_if_no_dangling :
       li <> lj /\
       forall z, reach (heap (fst (run_ops ct s roots ops))) li z ->
                 reach (heap (fst (run_ops ct s roots ops))) lj z -> False.
-Proof. intros ct H1 H2 H3 H4. exact (ctor_peers_disjoint ct H1 H2 H3 H4). Qed.
+Proof. intros ct H1 H2 H3 H4 H5 H6. exact (ctor_peers_disjoint ct H1 H2 H3 H4 H5 H6). Qed.
 
 (* The proviso discharged (proofs: coq/Inst/SepMore4.v, a bounds judgement over the whole model):
    the library never stores a reference to a cell that does not exist.  `bj n m Q`: from a heap
@@ -477,9 +486,11 @@ Qed.
    constructor calls with scalar keywords, every helper called copy-on-write with scalar
    arguments, deepcopy, argument objects of scalars, and in place on a constructor-created instance
    (any attribute): obj.a = <scalar>, del obj.a, with_<a>(<scalar>, _inplace=True),
-   reset_<a>(_inplace=True), reset(_inplace=True). *)
+   reset_<a>(_inplace=True), reset(_inplace=True), update_<a>(<scalar>, _inplace=True),
+   transform_<a>(<scalar callback>, _inplace=True). *)
 Theorem C08_peers_disjoint_history_partial :
   forall ct, no_dnc_classes ct -> scalar_table ct -> tgb ct = true -> no_dnc_attrs ct ->
+  all_init ct -> no_overrides ct ->
   forall n0, (forall c k a, lookup_cls ct c = Some k -> vb n0 (class_default k a)) ->
   forall ops s roots,
     n0 <= length (heap s) -> wf_heap (heap s) -> Forall (vb (length (heap s))) roots ->
@@ -493,8 +504,8 @@ Theorem C08_peers_disjoint_history_partial :
       forall z, reach (heap (fst (run_ops ct s roots ops))) li z ->
                 reach (heap (fst (run_ops ct s roots ops))) lj z -> False.
 Proof.
-  intros ct H1 H2 H3 H4 n0 H5 ops s roots Hn Hw Hr Hok Hsc.
-  apply (ctor_peers_disjoint ct H1 H2 H3 H4 ops s roots Hok).
+  intros ct H1 H2 H3 H4 Hi Ho n0 H5 ops s roots Hn Hw Hr Hok Hsc.
+  apply (ctor_peers_disjoint ct H1 H2 H3 H4 Hi Ho ops s roots Hok).
   exact (run_wf_holds ct H2 n0 H5 ops s roots Hn Hw Hr Hsc).
 Qed.
 
@@ -517,10 +528,11 @@ Qed.
 (* the invariant itself, for any set T of tracked constructor results to start from *)
 Theorem C08_peers_invariant_preserved :
   forall ct, no_dnc_classes ct -> scalar_table ct -> tgb ct = true -> no_dnc_attrs ct ->
+  all_init ct -> no_overrides ct ->
   forall ops s roots T,
-    ops_ok (length roots) T ops -> run_wf ct s roots ops -> PD s roots T ->
-    PD (fst (run_ops ct s roots ops)) (snd (run_ops ct s roots ops)) (tracked (length roots) T ops).
-Proof. intros ct H1 H2 H3 H4. exact (peers_disjoint_history ct H1 H2 H3 H4). Qed.
+    ops_ok (length roots) T ops -> run_wf ct s roots ops -> PD ct s roots T ->
+    PD ct (fst (run_ops ct s roots ops)) (snd (run_ops ct s roots ops)) (tracked (length roots) T ops).
+Proof. intros ct H1 H2 H3 H4 H5 H6. exact (peers_disjoint_history ct H1 H2 H3 H4 H5 H6). Qed.
 
 (* non-vacuity: p = C(); q = C(); p.n = 7; p.with_n(9); q.with_x(5) — covered alphabet, no dangling
    reference at any step; the final heap *)
@@ -538,14 +550,16 @@ Example C08_peers_disjoint_nonvacuous :
 Proof. exact peers_disjoint_nonvacuous. Qed.
 
 (* non-vacuity of the in-place part of the alphabet: the history above followed by
-   del p.xs; p.with_n(4, _inplace=True); q.reset_x(_inplace=True) *)
+   del p.xs; p.with_n(4, _inplace=True); q.reset_x(_inplace=True);
+   q.transform_xs(lambda x: x + [6], _inplace=True); p.update_n(8, _inplace=True) *)
 Example C08_peers_disjoint_inplace_nonvacuous :
   ops_ok 1 [] exp_ops2 /\
   run_wfb exp_ct (mkst [OList [VInt 1]] 0 None) [VRef 0] exp_ops2 = true /\
   (let '(s', roots') := run_ops exp_ct (mkst [OList [VInt 1]] 0 None) [VRef 0] exp_ops2 in
-   roots' = [VRef 0; VRef 1; VRef 3; VNone; VRef 5; VRef 8; VNone; VRef 1; VRef 3] /\
-   nth_error (heap s') 1 = Some (OInst 2 [(50, VRef 10); (51, VInt 4)]) /\
-   nth_error (heap s') 3 = Some (OInst 2 [(50, VRef 11); (51, VInt 3)]) /\
+   roots' = [VRef 0; VRef 1; VRef 3; VNone; VRef 5; VRef 8; VNone; VRef 1; VRef 3; VRef 3; VRef 1] /\
+   nth_error (heap s') 1 = Some (OInst 2 [(50, VRef 10); (51, VInt 8)]) /\
+   nth_error (heap s') 3 = Some (OInst 2 [(50, VRef 12); (51, VInt 3)]) /\
+   nth_error (heap s') 12 = Some (OList [VInt 1; VInt 6]) /\
    nth_error (heap s') 0 = Some (OList [VInt 1])).
 Proof. exact peers_disjoint_inplace_nonvacuous. Qed.
 
